@@ -95,6 +95,19 @@ impl Next<f64> for WeightedMovingAverage {
             self.sum = self.sum - self.sum_flat + (input * self.weight);
         }
         self.sum_flat = self.sum_flat - old_val + input;
+
+        if self.index == 0 {
+            // Once per turn of the ring buffer the window lies in chronological order:
+            // rebuild both sums from it, so that rounding errors of the incremental updates
+            // (the error of sum_flat is integrated into sum on every step) cannot accumulate.
+            self.sum = 0.0;
+            self.sum_flat = 0.0;
+            for (i, value) in self.deque.iter().enumerate() {
+                self.sum += value * (i + 1) as f64;
+                self.sum_flat += value;
+            }
+        }
+
         self.sum / (self.weight * (self.weight + 1.0) / 2.0)
     }
 }
